@@ -6,4 +6,4 @@ import (
 	"verif/internal/harness"
 )
 
-func TestProps(t *testing.T) { harness.Main(t, "C15", Validate, Inst) }
+func TestProps(t *testing.T) { harness.Main(t, "C15", Validate, Inst, Pair) }
